@@ -491,6 +491,115 @@ func certUnit(si int) harness.Unit {
 				}
 			}
 		}
+		// ExtraExtensions override the extension the template would generate for the same OID - that one
+		// and no other. A template that sets every field gives the baseline; a second one with other
+		// values donates, OID by OID, a well-formed replacement value. With one replacement in
+		// ExtraExtensions the certificate must carry every extension exactly once, the replaced one
+		// with the donated value and all others byte for byte as in the baseline.
+		rich := func(alt bool) *gx509.Certificate {
+			t := baseTemplate()
+			t.KeyUsage = gx509.KeyUsageDigitalSignature | gx509.KeyUsageCertSign
+			t.ExtKeyUsage = []gx509.ExtKeyUsage{gx509.ExtKeyUsageServerAuth}
+			t.BasicConstraintsValid, t.IsCA, t.MaxPathLen = true, true, 2
+			t.SubjectKeyId = []byte{1, 2, 3, 4}
+			t.DNSNames, t.EmailAddresses = []string{"a.example"}, []string{"u@example.test"}
+			t.PolicyIdentifiers = []asn1.ObjectIdentifier{{1, 2, 3, 4}}
+			t.CRLDistributionPoints = []string{"http://crl.example/a.crl"}
+			t.OCSPServer, t.IssuingCertificateURL = []string{"http://ocsp.example"}, []string{"http://ca.example/ca.cer"}
+			t.PermittedDNSDomains, t.PermittedDNSDomainsCritical = []string{"example"}, true
+			if alt {
+				t.KeyUsage = gx509.KeyUsageKeyEncipherment
+				t.ExtKeyUsage = []gx509.ExtKeyUsage{gx509.ExtKeyUsageClientAuth, gx509.ExtKeyUsageEmailProtection}
+				t.MaxPathLen = 5
+				t.SubjectKeyId = []byte{9, 9, 9}
+				t.DNSNames, t.EmailAddresses = []string{"x.example", "y.example"}, nil
+				t.PolicyIdentifiers = []asn1.ObjectIdentifier{{1, 2, 3, 5}, {1, 2, 3, 6}}
+				t.CRLDistributionPoints = []string{"http://crl.example/b.crl"}
+				t.OCSPServer, t.IssuingCertificateURL = []string{"http://ocsp2.example"}, nil
+				t.PermittedDNSDomains = []string{"other"}
+			}
+			return t
+		}
+		mkParsed := func(t *gx509.Certificate) *gx509.Certificate {
+			der, err := gx509.CreateCertificate(t, s.ca, subj, s.key)
+			if err != nil {
+				return nil
+			}
+			q, err := gx509.ParseCertificate(der)
+			if err != nil {
+				return nil
+			}
+			return q
+		}
+		p0, p2 := mkParsed(rich(false)), mkParsed(rich(true))
+		if p0 == nil || p2 == nil {
+			c.Violate("create-rejects:certificate:rich-template:"+s.name, "a template setting every field is not accepted or does not parse back", nil, nil)
+			return
+		}
+		// the issuer of the donor gets another key id, so that the authority key id has a replacement too
+		extOf := func(q *gx509.Certificate, id asn1.ObjectIdentifier) *pkix.Extension {
+			for i := range q.Extensions {
+				if q.Extensions[i].Id.Equal(id) {
+					return &q.Extensions[i]
+				}
+			}
+			return nil
+		}
+		donors := append([]pkix.Extension{}, p2.Extensions...)
+		if aki := extOf(p0, asn1.ObjectIdentifier{2, 5, 29, 35}); aki != nil {
+			v, _ := asn1.Marshal(struct {
+				Id []byte `asn1:"optional,tag:0"`
+			}{[]byte{7, 7, 7}})
+			for i := range donors {
+				if donors[i].Id.Equal(aki.Id) {
+					donors[i].Value = v
+				}
+			}
+		}
+		for _, e := range donors {
+			if extOf(p0, e.Id) == nil {
+				continue
+			}
+			t := rich(false)
+			t.ExtraExtensions = []pkix.Extension{{Id: e.Id, Critical: e.Critical, Value: e.Value}}
+			tag := fmt.Sprintf("certificate template with every field set and ExtraExtensions replacing %v, signer=%s", e.Id, s.name)
+			c.Add("evaluations", 1)
+			c.DistinctS("nontrivial", tag)
+			var q *gx509.Certificate
+			if c.Guard("create-panic:certificate", "CreateCertificate "+tag, nil, func() { q = mkParsed(t) }) {
+				continue
+			}
+			if q == nil {
+				c.Violate("extra-extension-override:rejected:"+e.Id.String(), fmt.Sprintf("[%s] not created or does not parse back", tag), nil, nil)
+				continue
+			}
+			seen := map[string]int{}
+			for _, x := range q.Extensions {
+				seen[x.Id.String()]++
+			}
+			var diff []string
+			for id, n := range seen {
+				if n > 1 {
+					diff = append(diff, fmt.Sprintf("extension %s occurs %d times", id, n))
+				}
+			}
+			for _, b := range p0.Extensions {
+				x := extOf(q, b.Id)
+				switch {
+				case x == nil:
+					diff = append(diff, fmt.Sprintf("extension %v is missing", b.Id))
+				case b.Id.Equal(e.Id):
+					if !bytes.Equal(x.Value, e.Value) {
+						diff = append(diff, fmt.Sprintf("extension %v does not carry the value given in ExtraExtensions", b.Id))
+					}
+				case !bytes.Equal(x.Value, b.Value):
+					diff = append(diff, fmt.Sprintf("extension %v changed although another one was replaced", b.Id))
+				}
+			}
+			if len(diff) > 0 {
+				c.Violate("extra-extension-override:"+e.Id.String(), fmt.Sprintf("[%s] %v", tag, diff), nil, nil)
+			}
+		}
 	}}
 }
 
